@@ -3,7 +3,8 @@
 1. TLC exhausts specs/Transport/Tamper.tla: every sequence of up to two
    adversary actions (bit flip in length / body / padding / tag, truncation,
    drop, duplicate, swap, spliced-in replayed / foreign / forged packet, end
-   of stream (FIN) in front of a packet) at
+   of stream (FIN) in front of a packet, an unauthenticated packet put in
+   front of the first KEXINIT - the Terrapin prefix) at
    every position of a packet stream, for the four shapes of the encryption
    layer (E&M, EtM, AES-GCM, chacha20-poly1305): TamperEvident,
    PrefixIntact, UntouchedComplete; the variant that keeps parsing after a
@@ -35,7 +36,7 @@ ALLOWED = (asyncssh.MACError, asyncssh.ProtocolError,
 def write_cfg(name, consts, invariants=(), properties=(), view=True,
               spec='Spec'):
     d = dict(NPkts=4, Budget=1, Class='"EandM"', ParseAfterError='FALSE',
-             EofIsClean='FALSE')
+             EofIsClean='FALSE', Strict='"on"')
     d.update(consts)
     lines = ['CONSTANTS'] + [f'  {k} = {v}' for k, v in d.items()]
     lines += [f'SPECIFICATION {spec}', 'CHECK_DEADLOCK FALSE']
@@ -82,6 +83,10 @@ def to_actions(adv, direction, base):
             acts.append(dict(dir=direction, op='flip', id=rid, region=a[3]))
         elif name == 'splice':
             acts.append(dict(dir=direction, op='splice', id=rid, what=a[3]))
+        elif name == 'preins':
+            # in front of the first KEXINIT, in both directions (so that a
+            # peer that lets it pass does so on both sides)
+            acts.append(dict(dir=direction, op='preinsert', id=0))
         else:
             acts.append(dict(dir=direction, op=name, id=rid))
     return acts
@@ -131,6 +136,12 @@ def judge(ctx, T, r, m, d, actions, payloads, what, sig):
     send_side = 'c' if d == 'cs' else 's'
     emitted = [(t, p) for t, _, p, w in r['rec'].app[send_side] if w]
     accepted = [(t, p) for t, _, p, _ in r['rec'].rx[recv_side]]
+    if any(a['op'] == 'preinsert' for a in m.applied) and accepted and \
+            accepted[0][0] == 2 and (not emitted or emitted[0][0] != 2):
+        # the unauthenticated IGNORE in front of the first KEXINIT: no keys
+        # are in effect yet, it is taken as what it is (C01 speaks about the
+        # stream once keys are in effect - what matters is what follows)
+        accepted = accepted[1:]
     if accepted != emitted[:len(accepted)]:
         k = next(i for i, a in enumerate(accepted)
                  if i >= len(emitted) or a != emitted[i])
@@ -202,6 +213,9 @@ def main(ctx):
        ['TamperEvident'], expect='TamperEvident')
     mc(ctx, 'c01_sens_eof', dict(Class='"ETM"', EofIsClean='TRUE'),
        ['NoCleanEndWhenAltered'], expect='NoCleanEndWhenAltered')
+    mc(ctx, 'c01_sens_strict', dict(Class='"CHACHA"', Budget=2,
+                                    Strict='"silently_off"'),
+       ['TamperEvident'], expect='TamperEvident')
     mc(ctx, 'c01_w1', dict(Class='"CHACHA"'), ['NeverStall'],
        expect='NeverStall')
     mc(ctx, 'c01_w2', dict(Class='"ETM"'), ['NeverErr'], expect='NeverErr')
@@ -212,6 +226,15 @@ def main(ctx):
     ctx.require(len(singles) >= 20, f'too few adversary behaviours '
                 f'({len(singles)} single)')
     rnd.shuffle(doubles)
+    # a packet in front of the first KEXINIT combined with anything at the
+    # first encrypted packets (the Terrapin shape) is always replayed
+    # (with strict key exchange the model ends at the insertion; what the
+    # adversary would go on to do is taken from the variant without it)
+    pre_doubles = [a for a in adversary_behaviours(
+        ctx, 'c01_advp', dict(Budget=2, NPkts=3, Strict='"silently_off"'))
+        if len(a[0]) == 2 and a[0][0][0] == 'preins']
+    ctx.require(len(pre_doubles) >= 10, f'pre-insert schedules: '
+                f'{len(pre_doubles)}')
     encs = [e.decode() for e in get_encryption_algs()]
     macs = [m.decode() for m in get_mac_algs()]
     if quick:
@@ -242,10 +265,15 @@ def main(ctx):
         per_combo = singles if (quick or ci % 9 == 0) else \
             rnd.sample(singles, min(len(singles), 12))
         extra = doubles[:(10 if quick else 30)] if ci % 3 == 0 else []
-        for adv, m_state, m_deliv in per_combo + extra:
+        pre = pre_doubles if 'chacha' in enc or not quick else \
+            [a for a in pre_doubles if a[0][1][0] in ('drop', 'dup')]
+        for adv, m_state, m_deliv in per_combo + extra + \
+                [(a[0], 'pre', a[2]) for a in pre]:
             for d in ('cs', 'sc'):
                 bases, npk = ph[d]
-                if quick:
+                if m_state == 'pre':
+                    bases = [1]
+                elif quick:
                     bases = [bases[(total + i) % len(bases)]
                              for i in range(2)]
                 for base in bases:
